@@ -155,8 +155,10 @@ def concretise(ctx, rng, scripts):
     if not slow:
         raise vcheck.Infra("no script with a join into a cluster of two or more members")
     for sc in slow[:1 if ctx.quick() else 4]:
-        sc["ballast"] = 200
-        sc["slowjoin"] = 10
+        # deterministic instead of slow: the joiner's store writes are held, then (snapshot restored) its
+        # network is cut before the entries after the snapshot arrive; it must not be ready in either window
+        sc["ballast"] = 40
+        sc["gatejoin"] = True
     ctx.extra["commit_retries_0_scripts"] = len(zero)
     ctx.extra["commit_retries_1_scripts"] = len(one)
     ctx.extra["slow_joiner_scripts"] = len(slow[:1 if ctx.quick() else 4])
